@@ -855,6 +855,44 @@ func (w *World) opDiffLinks(op *Op) {
 			return
 		}
 		w.st.Probes["replica-sync-ok"]++
+		// the replica's own view: the old version is loaded from a store that holds nothing but the
+		// old version, the new one from the source store
+		if va != nil {
+			repOld := NewSimDisk("sim://replica-old")
+			for _, n := range reachA {
+				b, _ := disk.Bytes(n)
+				repOld.Put(n, b)
+			}
+			oldR, r1 := w.loadRoot(va.root, d, nil, repOld)
+			newS, r2 := w.loadRoot(vb.root, d, nil, disk)
+			if !r1.bad() && !r2.bad() {
+				var a4, r4 []string
+				ns4 := 0
+				rr4 := guard(func() error {
+					return newS.DiffLinks(ctx, oldR, func(rem bool, link interface{}) (bool, error) {
+						s, ok := link.(string)
+						if !ok {
+							ns4++
+							return true, nil
+						}
+						if rem {
+							r4 = append(r4, s)
+						} else {
+							a4 = append(a4, s)
+						}
+						return true, nil
+					})
+				})
+				if rr4.bad() {
+					w.fail("difflinks-fails/"+rel+"/cross-store", "DiffLinks with the old version on the replica's store: %s", rr4)
+					return
+				}
+				w.st.Probes["difflinks-across-two-stores"]++
+				if !judge("cross-store", a4, r4, ns4) {
+					return
+				}
+			}
+		}
 		// the same diff computed by trees that load through the world's shared cache
 		if w.cache != nil {
 			a2, r2, ns2, _, _, rr2, ok := runDL(asNodeCache(w.cache), 0)
